@@ -771,6 +771,13 @@ def _panic_model(callee):
 def _dynamic_dispatch(ex0, trait, method, callee, infos=None):
     def call(ex, args):
         recv = deref(args[0]) if args else None
+        if isinstance(recv, BoxV) and isinstance(deref(recv.f[0]), Closure): recv = deref(recv.f[0])
+        if isinstance(recv, Closure):
+            if trait in ('Fn', 'FnMut', 'FnOnce'): return ex.call_value(recv, list(args[1].f))
+            for g in ('F', 'T'):
+                cands = ex.prog.method_info(trait, g, method)
+                if len(cands) == 1: return ex.call_mir(cands[0][0], [Ref([recv], 0)] + list(args[1:]))
+            raise Unsupported('no blanket impl of %s::%s for a closure' % (trait, method))
         ty = getattr(recv, 'ty', None)
         if isinstance(recv, BoxV): ty = getattr(deref(recv.f[0]), 'ty', None)
         if ty is None and hasattr(recv, 'rust_type'): ty = recv.rust_type
